@@ -1082,13 +1082,30 @@ def bcf_magic_tested_for_both_containers(chk, rule):
     def is_cmp(t):
         n = callee_name(t["callee"])
         return "core::array::equality::" in n or n.endswith("::starts_with") or n.endswith("::ends_with") or "core::slice::cmp::" in n or \
-            ("PartialEq<[" in n and n.endswith("::eq")) or n.endswith("<impl [T]>::eq") or "bcmp" in n or "memcmp" in n
+            ("PartialEq<[" in n and n.endswith("::eq")) or n.endswith("<impl [T]>::eq") or "bcmp" in n or "memcmp" in n or \
+            (n.startswith("core::cmp::impls::<impl core::cmp::PartialEq<&") and n.endswith("::eq"))
     cmp_bbs = {b for b, t in f.calls() if is_cmp(t)}
-    # helpers of the same module that compare
+    def compares(g_):
+        unit_ = [g_] + list(chk.prog.closures_of(g_.path))
+        return any(is_cmp(t2) for u_ in unit_ for b2, t2 in u_.calls())
+    # helpers of the same module that compare (themselves or in a closure: `get(..n).map_or(false, |buf| buf == magic)`), and closures
+    # handed to a combinator here
     for b, t in f.calls():
         h = chk.prog.fn(t["callee"].get("resolved") or t["callee"].get("path") or "")
-        if h is not None and h is not f and "::reader::builder::" in h.path and any(is_cmp(t2) for b2, t2 in h.calls()):
+        if h is not None and h is not f and "::reader::builder::" in h.path and compares(h):
             cmp_bbs.add(b)
+        for a in t["args"]:
+            cf = chk.prog.fn(a.get("fn") or "") if a.get("k") == "const" else None
+            if cf is not None and compares(cf):
+                cmp_bbs.add(b)
+    for c_ in chk.prog.closures_of(f.path):
+        if compares(c_):
+            # the closure's construction site is not tracked: count the blocks that hand any closure of this function to a call
+            for b, t in f.calls():
+                for a in t["args"]:
+                    l_ = op_local(a)
+                    if l_ is not None and "closure" in (f.local_ty(l_) or ""):
+                        cmp_bbs.add(b)
     arms = None
     for sb, st in f.switches():
         s_ = an.switch_subject(f, sb)
@@ -1124,7 +1141,7 @@ def check_C12(chk):
     chk.borrow(lambda: rules_io.c18a(chk), "C12.e", 5)
     # the VCF and the BCF reader are siblings: both hand on the decoded sample columns and nothing else, and end / fail alike (C10.e);
     # per-record state is reset for both alike (C11.d)
-    chk.borrow(lambda: (rules_io.reader_outcomes(chk, "C10.e"), RC.c11d(chk)), "C12.f", 8)
+    chk.borrow(lambda: (rules_io.reader_outcomes(chk, "C10.e"), RC.c11b(chk), RC.c11d(chk)), "C12.f", 8)  # (c11d reads what c11b established about reset())
     for r, n in (("C12.a", 7), ("C12.b", 3), ("C12.c", 3), ("C12.d", 9)):
         chk.floor(r, n)
 
